@@ -201,9 +201,11 @@ Definition oracle_c06 (c : case) : bool :=
 
 (* C07: every Stop/Poison context becomes done, none before the target has
    handled Stopped, none while the target is still registered *)
+Definition alien := 4999.   (* the harness's code for "a message of a type no script sent" (e.g. a poison pill) *)
 Definition oracle_c07 (c : case) : bool :=
   let o := c_obs c in
   negb (o_hang o) &&
+  forallb (fun r => negb (lmsg_eqb (or_msg r) (LUser alien))) (o_recvs o) &&
   forallb (fun p => op_done p && negb (op_early p) && negb (op_reg_at_done p)) (o_pills o).
 
 (* C13: every delivery went through the configured chain *)
